@@ -11,7 +11,7 @@ depth is at most the structural bound.
 """
 from __future__ import annotations
 
-from typing import Any, Dict
+from typing import List,  Any, Dict
 
 from mc import boot  # noqa: F401
 
@@ -177,8 +177,90 @@ class HorizonMonitor(Monitor):
         ex.count("horizon_edges", int(enabled.sum()))
         ex.count("horizon_last_edges", int((enabled & (st == 2)).sum()))
 
+    # -- all non-terminal edges (also those into states seen before): longest path / cycles -----------------
+    def after_edges(self, parents: Batch, actions: np.ndarray, children: Batch, enabled: np.ndarray,
+                    child_ids: np.ndarray) -> None:
+        st = np.asarray(children.ts.step_type)
+        keep = enabled & (st != 2) & (child_ids >= 0)
+        ii, aa = np.nonzero(keep)
+        if len(ii):
+            if not hasattr(self, "_edges"):
+                self._edges = []
+            self._edges.append(np.stack([np.asarray(parents.ids)[ii], aa, child_ids[ii, aa]], axis=1).astype(np.int64))
+
     def finish(self) -> Dict[str, Any]:
-        return {"structural_horizon": self.bound}
+        """BFS depth is the SHORTEST way to a state.  An episode can be longer than that if a non-terminal step
+        leads back to a state seen before: the graph of non-terminal edges must be acyclic and its longest path
+        (plus the closing step) must stay within the structural horizon."""
+        ex = self.ex
+        out: Dict[str, Any] = {"structural_horizon": self.bound}
+        if not getattr(self, "_edges", None):
+            return out
+        E = np.concatenate(self._edges, axis=0)
+        n = len(ex.parent)
+        succ: Dict[int, List[Any]] = {}
+        indeg = np.zeros(n, np.int64)
+        for u, a, v in E:
+            succ.setdefault(int(u), []).append((int(a), int(v)))
+            indeg[int(v)] += 1
+        longest = np.zeros(n, np.int64)  # number of non-terminal steps on the longest way into the node
+        pred: Dict[int, Any] = {}
+        queue = [i for i in range(n) if indeg[i] == 0]
+        seen = 0
+        while queue:
+            u = queue.pop()
+            seen += 1
+            for a, v in succ.get(u, ()):
+                if longest[u] + 1 > longest[v]:
+                    longest[v] = longest[u] + 1
+                    pred[v] = (u, a)
+                indeg[v] -= 1
+                if indeg[v] == 0:
+                    queue.append(v)
+        out["longest_nonterminal_path"] = int(longest.max()) if n else 0
+        ex.count("horizon_longest_path_nodes", seen)
+        if seen < n:  # a cycle of non-terminal steps: the episode can be made arbitrarily long
+            left = [i for i in range(n) if indeg[i] > 0]
+            w = min(left, key=lambda i: ex.depth[i])
+            walk, acts, pos = [w], [], {w: 0}
+            while True:
+                a, v = next((a, v) for a, v in succ[walk[-1]] if indeg[v] > 0)
+                acts.append(a)
+                if v in pos:
+                    cyc = acts[pos[v]:]
+                    start = v
+                    break
+                pos[v] = len(walk)
+                walk.append(v)
+            k = self.bound // max(1, len(cyc)) + 2
+            ex.violation(f"{self.fam}:non-terminal-steps-form-a-cycle",
+                         f"a cycle of {len(cyc)} non-terminal step(s) leads back to the same state: the episode can run "
+                         f"past any horizon (structural horizon {self.bound})", start, None,
+                         extra={"cycle_action_indices": [int(a) for a in cyc]})
+            v_ = ex.violations[-1] if ex.violations else None
+            if v_ is not None and v_.signature.endswith("non-terminal-steps-form-a-cycle"):
+                rp = v_.replay
+                rp["action_indices"] = list(rp["action_indices"]) + [int(a) for a in cyc] * k
+                rp["actions"] = list(rp["actions"]) + [np.asarray(ex.actions[a]).tolist() for a in cyc] * k
+        else:
+            over = np.nonzero(longest >= self.bound)[0]
+            if len(over):
+                w = int(over[np.argmin(longest[over])])
+                acts = []
+                while w in pred:
+                    u, a = pred[w]
+                    acts.append(int(a))
+                    w = u
+                acts = acts[::-1]
+                ex.violation(f"{self.fam}:episode-exceeds-structural-horizon",
+                             f"a way of {len(acts)} non-terminal steps exists (longer than the shortest way to the same "
+                             f"state); structural horizon is {self.bound}", w, None)
+                v_ = ex.violations[-1] if ex.violations else None
+                if v_ is not None:
+                    rp = v_.replay
+                    rp["action_indices"] = list(rp["action_indices"]) + acts
+                    rp["actions"] = list(rp["actions"]) + [np.asarray(ex.actions[a]).tolist() for a in acts]
+        return out
 
 
 def plan(cfg: catalog.Cfg, env: Any, tier: str) -> Dict[str, Any] | None:
